@@ -71,6 +71,8 @@ class Trace:
         self.emissions = []           # dict(offset, data, fin, state)
         self.resets = []              # dict(final, state)
         self.gone = False
+        self.sgone = False
+        self.tracer = None
         self.nbytes = 0
         self.ends = 0
         self.reset_events = 0
@@ -84,13 +86,15 @@ class Trace:
         return self.receiver
 
     def state(self):
-        return (f"S[{show_send(self.sender)}] R[{show_recv(self.recv_obj())} gone={_b(self.gone)}] "
+        return (f"S[{show_send(self.sender)}] R[{show_recv(self.recv_obj())} gone={_b(self.gone)}] sgone={_b(self.sgone)} "
                 f"wire={len(self.emissions)} rwire={len(self.resets)} bytes={self.nbytes} "
                 f"ends={self.ends} resets={self.reset_events}")
 
     def op(self, line, head):
         self.lines.append(line)
         self.expect.append(f"{head} | {self.state()}")
+        if self.tracer is not None:
+            self.tracer.table_op(self, line, head)
 
 
 class Tracer:
@@ -109,6 +113,55 @@ class Tracer:
         self._saved = []
         self._getframe = None
         self._getreset = None
+        self.tab_lines = ["tab.new"]      # op lines of the stream-table model (AQ.StreamTable)
+        self.tab_expect = ["ok | qC=[] qS=[] fC=[] fS=[]"]
+        self.serve = {}                   # ep name -> record of the stream-loop run in progress
+        self.in_app = set()               # connections inside _write_application
+
+    # ------------------------------------------------------- stream-table log
+    def table_state(self):
+        c, sv = self.sim.client.conn, self.sim.server.conn
+        ids = lambda l: "[" + ",".join(str(x) for x in l) + "]"
+        return (f"qC={ids([st.stream_id for st in c._streams_queue])} qS={ids([st.stream_id for st in sv._streams_queue])} "
+                f"fC={ids(sorted(c._streams_finished))} fS={ids(sorted(sv._streams_finished))}")
+
+    def table_op(self, t, line, head):
+        w = line.split()
+        src, dst = _b(t.src.is_client), _b(t.dst.is_client)
+        if w[0] == "sys.write":
+            tl = f"tab.api {src} {t.sid} write {w[1]} {w[2]}"
+        elif w[0] == "sys.reset":
+            tl = f"tab.api {src} {t.sid} reset {w[1]}"
+        elif w[0] == "sys.deliver":
+            tl = f"tab.arrive {dst} {t.sid} frame {w[1]}"
+        elif w[0] == "sys.deliverreset":
+            tl = f"tab.arrive {dst} {t.sid} reset {w[1]}"
+        elif w[0] in ("sys.ack", "sys.lose"):
+            tl = f"tab.report {src} {t.sid} {w[0][4:]} {w[1]}"
+        elif w[0] in ("sys.ackreset", "sys.losereset"):
+            tl = f"tab.report {src} {t.sid} {w[0][4:]} 0"
+        else:
+            return                        # emit / emitreset / discards happen inside `tab.serve`
+        self.tab_lines.append(tl)
+        self.tab_expect.append(f"{head} | {self.table_state()}")
+
+    def serve_begin(self, conn):
+        ep = self.ep_of(conn)
+        self.serve[ep.name] = {"ep": ep, "iter": [], "inputs": [], "sent": []}
+
+    def serve_end(self, conn):
+        ep = self.ep_of(conn)
+        r = self.serve.pop(ep.name, None)
+        if r is None:
+            return
+        after = [st.stream_id for st in conn._streams_queue]
+        tail = after[len(after) - len(r["sent"]):] if r["sent"] else []
+        if sorted(tail) != sorted(r["sent"]):
+            self.problems.append(f"{ep.name}: served streams {r['sent']} are not the tail of the rebuilt queue {after}")
+        inp = ",".join(f"{i}:{sp}:{mo}" for i, sp, mo in r["inputs"]) or "-"
+        tl = ",".join(str(x) for x in tail) or "-"
+        self.tab_lines.append(f"tab.serve {_b(ep.is_client)} {len(r['iter'])} {inp} {tl}")
+        self.tab_expect.append(f"ok | {self.table_state()}")
 
     # --------------------------------------------------------------- install
     def __enter__(self):
@@ -130,8 +183,13 @@ class Tracer:
                 t = tr.trace_of_sender(conn, stream)
                 sp = builder.remaining_flight_space
                 tr._getframe = None
+                rec = tr.serve.get(tr.ep_of(conn).name)
+                if rec is not None:
+                    rec["inputs"].append((stream.stream_id, sp, max_offset))
                 try:
                     used = orig(conn, builder, space, stream, max_offset)
+                    if rec is not None and used > 0:
+                        rec["sent"].append(stream.stream_id)
                 except QuicPacketBuilderStop:
                     fr = tr._getframe
                     if fr is not None:
@@ -306,6 +364,42 @@ class Tracer:
                 t.flags.add("reset-delivered")
             return w
 
+        from aioquic.quic import packet_builder as PB
+        tr.cur_app_conn = None
+
+        def mk_write_application(orig):
+            def w(conn, builder, network_path, now):
+                tr.cur_app_conn = conn
+                try:
+                    return orig(conn, builder, network_path, now)
+                finally:
+                    tr.cur_app_conn = None
+                    tr.serve_end(conn)
+            return w
+
+        def mk_start_packet(orig):
+            def w(builder, packet_type, crypto):
+                conn = tr.cur_app_conn
+                if conn is not None:
+                    tr.serve_end(conn)
+                orig(builder, packet_type, crypto)
+                if conn is not None:
+                    tr.serve_begin(conn)      # the stream loop of this while-iteration follows
+            return w
+
+        def mk_is_finished(orig):
+            def fget(stream):
+                conn = tr.cur_app_conn
+                if conn is not None and stream.stream_id is not None:
+                    rec = tr.serve.get(tr.ep_of(conn).name)
+                    if rec is not None:
+                        rec["iter"].append(stream.stream_id)
+                return orig.fget(stream)
+            return property(fget)
+
+        patch(C.QuicConnection, "_write_application", mk_write_application)
+        patch(PB.QuicPacketBuilder, "start_packet", mk_start_packet)
+        patch(S.QuicStream, "is_finished", mk_is_finished)
         patch(C.QuicConnection, "_write_stream_frame", mk_write_stream_frame)
         patch(C.QuicConnection, "_write_reset_stream_frame", mk_write_reset)
         patch(C.QuicConnection, "_payload_received", mk_payload_received)
@@ -338,6 +432,7 @@ class Tracer:
 
     def new_trace(self, ep, sid, sender):
         t = Trace(ep, sid, sender)
+        t.tracer = self
         self.traces[(ep.name, sid)] = t
         self.by_sender[id(sender)] = t
         t.op(f"sys.new {sid} 0 0 0", "ok")
@@ -357,14 +452,17 @@ class Tracer:
             sid = args[0]
             st = ep.conn._streams.get(sid)
             if st is None:
-                return
-            t = self.by_sender.get(id(st.sender))
-            if t is None:
-                old = self.traces.get((ep.name, sid))
-                if old is not None:
-                    self.problems.append(f"{ep.name}/{sid}: the stream object was re-created by {name}")
+                t = self.traces.get((ep.name, sid))
+                if t is None or sid not in ep.conn._streams_finished:
                     return
-                t = self.new_trace(ep, sid, st.sender)
+            else:
+                t = self.by_sender.get(id(st.sender))
+                if t is None:
+                    old = self.traces.get((ep.name, sid))
+                    if old is not None:
+                        self.problems.append(f"{ep.name}/{sid}: the stream object was re-created by {name}")
+                        return
+                    t = self.new_trace(ep, sid, st.sender)
             if name == "send_stream_data":
                 data = args[1]
                 fin = kw.get("end_stream", args[2] if len(args) > 2 else False)
@@ -385,6 +483,10 @@ class Tracer:
                     t.gone = True
                     t.op("sys.discard", "ok")
                     t.flags.add("discard")
+                if t.src is ep and not t.sgone and t.sid in fin:
+                    t.sgone = True
+                    t.op("sys.senddiscard", "ok")
+                    t.flags.add("send-discard")
 
     def on_packet_built(self, sim, ep, epoch, pn, header, payload, size):
         self.sim = sim
